@@ -464,6 +464,9 @@ func sortedCopy(s []string) []string {
 // machine has one (16 workers creating and deleting small trees contend badly on a journalled disk),
 // else the default temporary directory. Both are case-sensitive here.
 func scratchBase() string {
+	if d := os.Getenv("SIMRUN_SCRATCH"); d != "" {
+		return d
+	}
 	if st, err := os.Stat("/dev/shm"); err == nil && st.IsDir() {
 		if d, err := os.MkdirTemp("/dev/shm", "probe-"); err == nil {
 			os.Remove(d)
@@ -471,4 +474,25 @@ func scratchBase() string {
 		}
 	}
 	return ""
+}
+
+var scratchCounter int
+
+// mkScratch creates a fresh sandbox directory whose name has the same length in every process
+// (the code under test may mention path lengths in error texts, which must replay identically).
+func mkScratch(tag string) (string, error) {
+	base := scratchBase()
+	if base == "" {
+		base = os.TempDir()
+	}
+	for tries := 0; tries < 1000; tries++ {
+		scratchCounter++
+		d := fmt.Sprintf("%s/zs-%s-%010d-%08d", base, tag, os.Getpid(), scratchCounter)
+		if err := os.Mkdir(d, 0o755); err == nil {
+			return d, nil
+		} else if !os.IsExist(err) {
+			return "", err
+		}
+	}
+	return "", fmt.Errorf("cannot create a scratch directory under %s", base)
 }
